@@ -17,6 +17,8 @@ Log of decisions
 Theorems (Property.v; all closed under the global context):
   C19_inv_reachable      DevInv h0 -> ops_ok h0 ops -> DevInv (run h0 ops)   (induction over histories)
   C19_inv_initial        a state without annotations satisfies DevInv
+  C19_clone_same_configurations  the clone registers the same configuration objects for every parameter
+                         combination of clone (deep_copy, allow_outer_scope_values)
   C19_check_empty        DevInv h -> names_nonempty h -> check h = []
   C19_drop_replace_input / C19_drop_resize_outputs / C19_drop_resize_inputs
                          specs of a value that left the node are gone, all other specs and nodes untouched
@@ -87,6 +89,10 @@ Mutants of /repo tried (scratch worktree, VERIF_REPO; quick tier, seed 0) — al
   M9  _resolve_node_device_configurations skips functions             correspondence + oracle (round trip)
   M10 conflicting stage not checked when the configuration has specs  correspondence + oracle (request accepted)
   The shrunk witnesses of M1-M6, M8-M10 are kept in corpus/C19 (run first on every run).
+  Seeded C19-r3m1 (Model.clone(deep_copy=True) re-creates the configuration records while the cloned nodes keep
+  the original objects): missed while the clone op only used clone(); the op now carries deep_copy and
+  allow_outer_scope_values (the latter through Graph.clone + re-assembly, main graph and its bodies only, since
+  Function.clone has no such parameter), nodes/values carry meta entries so deep_copy copies something.
   Seeded C19-m3 (deserializer resolves sharding names against the innermost scope only): missed by the first
   version (no subgraph bodies in the world); caught since the model/generator have nested scopes — correspondence
   + oracle with a concrete replay (body node sharding a captured value, then a round trip).
@@ -174,7 +180,7 @@ def c_op(o) -> str:
     if k == "remove_node":
         return f"(ORemoveNode {o['n']})"
     if k == "clone":
-        return "OClone"
+        return f"(OClone {common.cbool(o.get('deep', False))} {common.cbool(o.get('allow', False))})"
     if k == "roundtrip":
         return "ORoundTrip"
     raise AssertionError(k)
@@ -268,6 +274,9 @@ class World:
             self.nid_of[id(n)] = nid
             self.nscope[nid] = self._tmp_scope[id(n)]
             n.name = f"n{nid}"
+            n.meta["tag"] = {"nid": nid, "path": [self.nscope[nid]]}     # something for deep_copy=True to copy
+            for v in n.outputs:
+                v.meta["tag"] = [nid]
             self.nregion[nid] = self._root(self.nscope[nid])
         self.n_init_vals = len(self.vals)
 
@@ -522,7 +531,18 @@ class World:
             elif k == "remove_node":
                 node.graph.remove(node, safe=True)
             elif k == "clone":
-                self._rebind_clone(self.model.clone())
+                deep, allow = o.get("deep", False), o.get("allow", False)
+                if not allow:
+                    new_model = self.model.clone(deep_copy=deep)
+                else:
+                    # Model.clone has no allow_outer_scope_values: re-assemble the model the way Model.clone does,
+                    # from Graph.clone(allow_outer_scope_values=True) and Function.clone
+                    ir = self.ir
+                    g = self.model.graph.clone(allow_outer_scope_values=True, deep_copy=deep)
+                    fs = [f.clone(deep_copy=deep) for f in self.model.functions.values()]
+                    new_model = ir.Model(g, ir_version=self.model.ir_version, functions=fs,
+                                         device_configurations=self.model.device_configurations)
+                self._rebind_clone(new_model)
             elif k == "roundtrip":
                 if not self.rt_domain():
                     return "OtherError"
@@ -810,7 +830,7 @@ class Gen:
                     continue
                 return {"op": "rename", "v": v, "name": r.choice(outer).name}
             if k == "clone":
-                return {"op": "clone"}
+                return {"op": "clone", "deep": r.random() < 0.5, "allow": r.random() < 0.3}
             if k == "roundtrip":
                 if not w.rt_domain() and r.random() < 0.85:
                     # repair the names first (renames are ordinary ops of the history)
@@ -827,7 +847,7 @@ class Gen:
                     self.pending.append({"op": "roundtrip"})
                     return self.pending.pop(0)
                 return {"op": "roundtrip"}
-        return {"op": "clone"}
+        return {"op": "clone", "deep": True, "allow": False}
 
 
 # --------------------------------------------------------------------------- property oracle (public API)
